@@ -79,6 +79,30 @@ def run_scan(root: Path, cwd: Path, arg: Path, opt, keep_cache=False):
     return doc["codebase"]["files"]
 
 
+def observe_builtins(_arg=None):
+    """A tree with one directory per built-in exclusion (at the root and one level down), each holding a source file, next to
+    an ordinary directory: only the ordinary files contribute."""
+    from codelimit.common.Configuration import Configuration
+    from codelimit.common.Scanner import scan_path
+
+    from ..common import scratch_dir
+
+    top = scratch_dir("c11-builtin")
+    root = top / "r"
+    for name in U.BUILTIN_EXCLUSIONS:
+        for d in (root / name, root / "deep" / name / "sub"):
+            d.mkdir(parents=True, exist_ok=True)
+            (d / "x.py").write_text("def x(a):\n    return a\n")
+    for rel in ("keep/z.py", "deep/keep.js", "buildx/y.py", "my_build/y.c"):
+        (root / rel).parent.mkdir(parents=True, exist_ok=True)
+        (root / rel).write_text("int y(int a) {\n  return a;\n}\n" if rel.endswith(".c") else "def z(a):\n    return a\n" if rel.endswith(".py") else "function w(a) {\n  return a;\n}\n")
+    Configuration.exclude = []
+    try:
+        return sorted(scan_path(root).files)
+    finally:
+        shutil.rmtree(top, ignore_errors=True)
+
+
 def observe_config(arg):
     depth, pats, srcs, root_form = arg
     top, root, files = world(depth)
@@ -340,6 +364,14 @@ def run(tier: str) -> int:
         if kind == "universe" and n not in rejected:
             rep.model_drift(f"scan of the universe under {confs[k][0]} differs from the ghost set but is accepted clause by clause")
     log(f"[C11] A accepted {len(sel_events) - len(rejected)}/{len(sel_events)} recorded scans ({len(sub_jobs)} random sub-trees), {t.s()}s")
+    # every built-in exclusion, by name (the universe holds three of them)
+    bi = guarded(observe_builtins, None, 120)
+    want_bi = sorted(["keep/z.py", "deep/keep.js", "buildx/y.py", "my_build/y.c"])
+    if bi[0] != "ok" or bi[1] != want_bi:
+        extra = sorted(set(bi[1]) - set(want_bi)) if bi[0] == "ok" else list(bi)
+        rep.fail({"clause": "BuiltInExclusionsHonoured", "contributing_but_excluded": [x.split("/x.py")[0] for x in extra][:6] if bi[0] == "ok" else "exception"},
+                 {"kind": "builtins", "observed": bi[1] if bi[0] == "ok" else list(bi), "expected": want_bi})
+    log(f"[C11] built-in exclusions: {len(U.BUILTIN_EXCLUSIONS)} names, each at the root and below a directory; contributing files {bi[1] if bi[0] == 'ok' else bi}")
     rc = rep.finish()
     evidence.write(
         PROP, tier, level="model_checking", wall_s=t.s(), violations=rep.n_violations,
@@ -362,6 +394,13 @@ def run(tier: str) -> int:
 
 def replay(path: str) -> int:
     case = json.loads(open(path).read())
+    if case["kind"] == "builtins":
+        r = guarded(observe_builtins, None, 120)
+        print("expected:", case["expected"], "observed:", r)
+        if r[0] == "ok" and r[1] == case["expected"]:
+            return 0
+        print(f"VIOLATION property={PROP} replay={path}")
+        return 1
     if case["kind"] == "walk":
         r = guarded(walk_orders, case["order_seed"], 120)
         print("expected:", case["expected"], "observed:", r)
